@@ -64,7 +64,7 @@ open LZ4V.Model.FastX in
 theorem stream_block_within_bound (hashOf : Array UInt8 → Bool → Nat → Nat) (ops : List Op) (k addr : Nat) (data : Array UInt8) (acc : Int) (cap : Nat)
     (blk : List UInt8) (hop : ops[k]? = some (.compress addr data acc cap)) (h : (run hashOf {} ops)[k]? = some (.block (some blk))) :
     blk.length ≤ data.size + data.size / 255 + 2 := by
-  have := (run_parsed hashOf ops {} [] JX_init (LZ4V.Model.FastX.IsTail.refl _) k addr data acc cap blk hop h [] _ rfl (Or.inl rfl)).size_le
+  have := (run_parsed hashOf ops {} [] Inv_init k addr data acc cap blk hop h [] _ rfl (Or.inl rfl)).size_le
   rwa [Array.length_toList] at this
 
 end LZ4V.C09
